@@ -204,6 +204,9 @@ impl ClientHello {
             random_bytes,
         };
 
+        if buf.is_empty() {
+            bail!("ClientHello too short for session_id length");
+        }
         let session_id_len = buf.get_u8() as usize;
         if buf.len() < session_id_len {
             bail!("ClientHello too short for session_id");
@@ -310,6 +313,9 @@ impl ServerHello {
             random_bytes,
         };
 
+        if buf.is_empty() {
+            bail!("ServerHello too short for session_id length");
+        }
         let session_id_len = buf.get_u8() as usize;
         if buf.len() < session_id_len {
             bail!("ServerHello too short for session_id");
